@@ -77,7 +77,9 @@ theorem sorted_cancelBatches (p : Batch → Bool) {s : State} (hs : PoolSorted s
   insertAll_sorted _ hs
 
 theorem cleanupCalls_pool (s : State) : (cleanupCalls s).pool = s.pool := by
-  unfold cleanupCalls
+  obtain ⟨fm, hfm⟩ := cleanupCalls_core s
+  rw [hfm]
+  unfold cleanupCallsCore
   exact (foldl_refundCall _ _).1
 
 theorem sorted_observe {s : State} (hs : PoolSorted s.pool) (h : Nat) (ev : Ev) : PoolSorted (doObserve s h ev).1.pool := by
@@ -121,11 +123,20 @@ theorem sorted_step {s : State} (hs : PoolSorted s.pool) (op : Op) : PoolSorted 
     simp only
     repeat' split
     all_goals exact hs
+  | psend a d t am f =>
+    simp only [step]; unfold doPSend
+    repeat' split
+    all_goals first | exact hs | exact insertDesc_sorted _ hs
+  | pcall a r to d m cs =>
+    simp only [step]; unfold doPCall
+    simp only
+    repeat' split
+    all_goals exact hs
   | observe h ev => exact sorted_observe hs h ev
   | exec n =>
     simp only [step]; unfold doExec
     repeat' split
-    all_goals first | exact hs | (simp only [refundCall]; exact hs)
+    all_goals first | exact hs | (simp only [refundCall, dropFromMsg]; exact hs)
   | setParams p =>
     simp only [step]
     split <;> exact hs
